@@ -7211,6 +7211,119 @@ let fn_in_domain_b f =
 let in_domain_b p =
   forallb fn_in_domain_b (functions_of p)
 
+(** val direct_lets : stmt list -> string list **)
+
+let direct_lets ss =
+  flat_map (fun s ->
+    match s with
+    | SLet (x, _, _, _) -> x.iname :: []
+    | _ -> []) ss
+
+(** val bodies_if : ifstmt -> stmt list list **)
+
+let rec bodies_if = function
+| IfS (_, body, els, elif) ->
+  (match body with
+   | IBIf ss -> ss
+   | IBLoop ss -> ss) :: (match els with
+                          | Some i0 ->
+                            (match i0 with
+                             | IBIf ss -> ss :: []
+                             | IBLoop ss -> ss :: [])
+                          | None ->
+                            (match elif with
+                             | Some i' -> bodies_if i'
+                             | None -> []))
+
+(** val bodies_stmt : stmt -> stmt list list **)
+
+let bodies_stmt = function
+| SIf i -> bodies_if i
+| SLoop body -> body :: []
+| _ -> []
+
+(** val kid_bodies : stmt list -> stmt list list **)
+
+let kid_bodies ss =
+  flat_map bodies_stmt ss
+
+(** val direct_decls : block -> value list **)
+
+let direct_decls b =
+  let kid_names = flat_map (fun k -> decl_names k.b_ctx) b.b_kids in
+  filter (fun v -> negb (smem v.v_inner kid_names)) (decl_values b.b_ctx)
+
+(** val build_table :
+    string list -> value list -> (string * value) list -> (string * value)
+    list option **)
+
+let rec build_table names vals acc =
+  match names with
+  | [] -> (match vals with
+           | [] -> Some acc
+           | _ :: _ -> None)
+  | x :: names' ->
+    (match vals with
+     | [] -> None
+     | v :: vals' -> build_table names' vals' (ainsert x v acc))
+
+(** val table_eqb0 :
+    (string * value) list -> (string * value) list -> bool **)
+
+let table_eqb0 a b =
+  (&&) (Nat.eqb (length a) (length b))
+    (forallb (fun kv ->
+      match alookup (fst kv) b with
+      | Some v -> value_eqb (snd kv) v
+      | None -> false) a)
+
+(** val chk_vals : nat -> string list -> stmt list -> block -> bool **)
+
+let rec chk_vals fuel own ss b =
+  match fuel with
+  | O -> false
+  | S f ->
+    (match build_table (app own (direct_lets ss)) (direct_decls b) [] with
+     | Some t ->
+       (&&) (table_eqb0 t b.b_values)
+         (let rec go bodies0 ks =
+            match bodies0 with
+            | [] -> (match ks with
+                     | [] -> true
+                     | _ :: _ -> false)
+            | body :: bodies' ->
+              (match ks with
+               | [] -> false
+               | k :: ks' -> (&&) (chk_vals f [] body k) (go bodies' ks'))
+          in go (kid_bodies ss) b.b_kids)
+     | None -> false)
+
+(** val chk_C18_values_fn : fn_decl -> block -> bool **)
+
+let chk_C18_values_fn f root =
+  chk_vals (S (S (size_fn f))) (map (fun p -> (fst p).iname) f.fn_params)
+    f.fn_body root
+
+(** val chk_C18_values_fns : fn_decl list -> block list -> bool **)
+
+let rec chk_C18_values_fns fs roots =
+  match fs with
+  | [] -> (match roots with
+           | [] -> true
+           | _ :: _ -> false)
+  | f :: fs' ->
+    (match roots with
+     | [] -> false
+     | r :: roots' ->
+       (&&) (chk_C18_values_fn f r) (chk_C18_values_fns fs' roots'))
+
+(** val chk_C18_values : program -> output -> bool **)
+
+let chk_C18_values p o =
+  match o.o_errors with
+  | [] -> chk_C18_values_fns (functions_of p) o.o_fns
+  | _ :: _ -> true
+
 type json =
 | JNull
 | JBool of bool
